@@ -885,9 +885,9 @@ def c17(tier, replay=None):
     res.assumptions = ["the reference semantics of inheritance: p(a, xs) & dom(f)=a & cod(f)=b => p(b, xs) for every member relation (no member types in these theories)",
                        "morphism diagrams are kept acyclic (the generated close() rejects cycles by design: expect(\"TODO ...\"))"]
     q = tier == "quick"
-    n = 48 if q else 600
+    n = 96 if q else 600
     tasks = [{"tseed": seed() * 100003 + 900000 + i, "seed": seed(), "factsets": 5 if q else 10, "variants": 8 if q else 9} for i in range(n)]
-    nm = 24 if q else 300
+    nm = 48 if q else 300
     tasks += [{"tseed": seed() * 100003 + 960000 + i, "seed": seed(), "factsets": 5 if q else 10, "variants": 8 if q else 9, "family": "member-type"} for i in range(nm)]
     aggregate(res, pmap(c17_task, tasks))
     return res.finish()
